@@ -1224,22 +1224,32 @@ def vec_dedup(I, args, callee):
     return unit()
 
 
-@model('[]::binary_search', '[]::binary_search_by', '[]::binary_search_by_key')
+@model('[]::binary_search', '[]::binary_search_by', '[]::binary_search_by_key', 'Vec::binary_search', 'Vec::binary_search_by', 'Vec::binary_search_by_key')
 def binary_search(I, args, callee):
+    """std's branch-free binary search, step by step (faithful also on unsorted input)"""
     items = items_of(args[0])
-    # linear scan with the same observable result on sorted input without duplicates
-    for i, x in enumerate(items):
+
+    def cmp_at(i):
+        x = items[i]
         if 'by_key' in callee:
-            c = values_cmp(I, I.call_value(args[2], [Ref([x], 0)]), args[1])
-        elif '_by' in callee:
-            c = {'Less': -1, 'Equal': 0, 'Greater': 1}[I.call_value(args[1], [Ref([x], 0)]).variant]
-        else:
-            c = values_cmp(I, x, args[1])
-        if c == 0:
-            return ok(i)
-        if c > 0:
-            return err(i)
-    return err(len(items))
+            return values_cmp(I, I.call_value(args[2], [Ref([x], 0)]), args[1])
+        if '_by' in callee:
+            return {'Less': -1, 'Equal': 0, 'Greater': 1}[I.call_value(args[1], [Ref([x], 0)]).variant]
+        return values_cmp(I, x, args[1])
+    size = len(items)
+    if size == 0:
+        return err(0)
+    base = 0
+    while size > 1:
+        half = size // 2
+        mid = base + half
+        c = cmp_at(mid)
+        base = base if c > 0 else mid
+        size -= half
+    c = cmp_at(base)
+    if c == 0:
+        return ok(base)
+    return err(base + (1 if c < 0 else 0))
 
 
 @model('[]::iter().position')
